@@ -490,6 +490,7 @@ def forkOk (l : Life.S) : Rec → Prop
     if pid ≠ ppid then Life.curProc l pid = none
     else tid ≠ pid ∧ tid ≠ ptid ∧ ∀ pi, Life.curProc l ppid = some pi → Life.curThread l pi tid = none
   | .comm pid tid _ isExec _ => isExec = true → pid = tid
+  | .exit pid tid _ => pid ≠ tid → Life.curProc l pid ≠ none
   | _ => True
 
 theorem step_exit (s : St) (pid tid t : Nat) :
@@ -497,7 +498,7 @@ theorem step_exit (s : St) (pid tid t : Nat) :
       if pid = tid then removeProc s pid (conv s t)
       else (removeThread (getByPid s pid).1 (getByPid s pid).2 tid (conv s t)).1 := rfl
 
-theorem lstep_exit (l : Life.S) (pid tid t : Nat) :
+theorem lstep_exit (l : Life.S) (pid tid t : Nat) (hok : pid ≠ tid → Life.curProc l pid ≠ none) :
     Life.step l (.exit pid tid t) =
       if pid = tid then
         match Life.curProc l pid with
@@ -506,14 +507,20 @@ theorem lstep_exit (l : Life.S) (pid tid t : Nat) :
       else
         match Life.curThread (Life.ensureProc l pid).1 (Life.ensureProc l pid).2 tid with
         | some i => Life.endThread (Life.ensureProc l pid).1 i (Life.conv l t)
-        | none => (Life.ensureProc l pid).1 := rfl
+        | none => (Life.ensureProc l pid).1 := by
+  by_cases hpt : pid = tid
+  · simp only [Life.step, if_pos hpt]; rfl
+  · cases hc : Life.curProc l pid with
+    | none => exact absurd hc (hok hpt)
+    | some pi => simp only [Life.step, if_neg hpt, hc]; rfl
 
 theorem Sim.conv {s : St} {l : Life.S} (h : Sim s l) (t : Nat) : Conv.conv s t = Life.conv l t := by
   unfold Conv.conv Life.conv; rw [h.tab.ref]
 
-theorem sim_exit {s : St} {l : Life.S} (h : Sim s l) (pid tid t : Nat) :
+theorem sim_exit {s : St} {l : Life.S} (h : Sim s l) (pid tid t : Nat)
+    (hok : forkOk l (.exit pid tid t)) :
     Sim (step s (.exit pid tid t)) (Life.step l (.exit pid tid t)) := by
-  rw [step_exit, lstep_exit, h.conv]
+  rw [step_exit, lstep_exit _ _ _ _ hok, h.conv]
   by_cases hpt : pid = tid
   · rw [if_pos hpt, if_pos hpt]
     cases hb : alGet s.procs pid with
@@ -724,15 +731,15 @@ theorem step_mmap2 (s : St) (pid tid addr len pgoff : Nat) (exec : Bool) (path :
     step s (.mmap2 pid tid addr len pgoff exec path t) =
       let s1 := if s.cur = s.cfg.ref || path.isEmpty then s
                 else (getThread (getByPid s pid).1 (getByPid s pid).2 tid).1
-      if !exec then s1 else
+      if !exec then s1 else if specialPath path then s1 else
         putProc (getByPid s1 pid).1 { (getByPid s1 pid).2 with
-          mapq := (getByPid s1 pid).2.mapq ++ [(t, { start := addr, end_ := addr + len, rel := pgoff, lib := path })] } :=
+          mapq := (getByPid s1 pid).2.mapq ++ mapOps (getByPid s1 pid).1.cfg addr len pgoff path t } :=
   rfl
 
 theorem lstep_mmap2 (l : Life.S) (pid tid addr len pgoff : Nat) (exec : Bool) (path : String) (t : Nat) :
     Life.step l (.mmap2 pid tid addr len pgoff exec path t) =
       let l1 := if l.cur = l.ref || path.isEmpty then l else Life.ensureThread l pid tid
-      if exec then (Life.ensureProc l1 pid).1 else l1 := rfl
+      if exec && !specialPath path then (Life.ensureProc l1 pid).1 else l1 := rfl
 
 theorem sim_mmap2 {s : St} {l : Life.S} (h : Sim s l) (pid tid addr len pgoff : Nat) (exec : Bool) (path : String)
     (t : Nat) :
@@ -753,9 +760,12 @@ theorem sim_mmap2 {s : St} {l : Life.S} (h : Sim s l) (pid tid addr len pgoff : 
   cases exec with
   | false => exact h1
   | true =>
-    simp only [Bool.not_true, Bool.false_eq_true, if_false, if_true]
-    obtain ⟨h2, hb2, _⟩ := h1.getByPid pid
-    exact h2.touch hb2 (PEq.of_same rfl rfl rfl rfl rfl)
+    cases hsp : specialPath path with
+    | true => simpa [hsp] using h1
+    | false =>
+      simp only [hsp, Bool.not_true, Bool.not_false, Bool.and_self, Bool.false_eq_true, if_false, if_true]
+      obtain ⟨h2, hb2, _⟩ := h1.getByPid pid
+      exact h2.touch hb2 (PEq.of_same rfl rfl rfl rfl rfl)
 
 /-! ### One record: FORK -/
 
@@ -862,7 +872,7 @@ theorem sim_step {s : St} {l : Life.S} (h : Sim s l) (r : Rec) (hok : forkOk l r
   cases r with
   | sample pid tid t km period ip chain => exact sim_sample h pid tid t km period ip chain
   | fork pid tid ppid ptid t => exact sim_fork h pid tid ppid ptid t hok
-  | exit pid tid t => exact sim_exit h pid tid t
+  | exit pid tid t => exact sim_exit h pid tid t hok
   | comm pid tid name isExec t => exact sim_comm h pid tid name isExec t hok
   | mmap2 pid tid addr len pgoff exec path t => exact sim_mmap2 h pid tid addr len pgoff exec path t
   | switchIn pid tid t => exact sim_switchIn h pid tid t
@@ -871,14 +881,20 @@ theorem sim_step {s : St} {l : Life.S} (h : Sim s l) (r : Rec) (hok : forkOk l r
 
 theorem gStep_s (g : Life.G) (r : Rec) : (Life.gStep g r).s = Life.step g.s r := rfl
 
-theorem gStep_ok {g : Life.G} {r : Rec} (h : (Life.gStep g r).ok = true) : g.ok = true ∧ forkOk g.s r := by
-  unfold Life.gStep at h
+theorem gStep_ok {g : Life.G} {r : Rec} (h : (Life.gStep g r).ok = true) (ho : (Life.gStep g r).orphan = false) :
+    (g.ok = true ∧ g.orphan = false) ∧ forkOk g.s r := by
+  unfold Life.gStep at h ho
   simp only [Bool.and_eq_true] at h
-  obtain ⟨⟨h1, h2⟩, _⟩ := h
-  refine ⟨h1, ?_⟩
+  simp only [Bool.or_eq_false_iff] at ho
+  obtain ⟨h1, h2⟩ := h
+  refine ⟨⟨h1, ho.1⟩, ?_⟩
   cases r with
   | sample pid tid t km period ip chain => trivial
-  | exit pid tid t => trivial
+  | exit pid tid t =>
+    simp only [forkOk]
+    intro hne hc
+    have := ho.2
+    simp [Life.orphanExit, hne, hc] at this
   | mmap2 pid tid addr len pgoff exec path t => trivial
   | switchIn pid tid t => trivial
   | switchOut pid tid t => trivial
@@ -886,14 +902,13 @@ theorem gStep_ok {g : Life.G} {r : Rec} (h : (Life.gStep g r).ok = true) : g.ok 
   | comm pid tid name isExec t =>
     simp only [forkOk]
     intro he
-    simpa [he] using h2
+    simpa [Life.stepOk, he] using h2
   | fork pid tid ppid ptid t =>
     simp only [forkOk]
-    simp only at h2
+    simp only [Life.stepOk] at h2
     by_cases hpp : pid ≠ ppid
     · rw [if_pos hpp] at h2 ⊢
-      simp only [Bool.and_eq_true, Option.isNone_iff_eq_none] at h2
-      exact h2.2
+      simpa [Option.isNone_iff_eq_none] using h2
     · rw [if_neg hpp] at h2 ⊢
       cases hc : Life.curProc g.s ppid with
       | none =>
@@ -905,19 +920,22 @@ theorem gStep_ok {g : Life.G} {r : Rec} (h : (Life.gStep g r).ok = true) : g.ok 
         simp only [Bool.and_eq_true, bne_iff_ne, ne_eq, Option.isNone_iff_eq_none] at h2
         exact ⟨h2.1.2, h2.2, fun pi' hpi' => by cases hpi'; exact h2.1.1⟩
 
-theorem foldl_gStep_ok {rs : List Rec} {g : Life.G} (h : (rs.foldl Life.gStep g).ok = true) : g.ok = true := by
+theorem foldl_gStep_ok {rs : List Rec} {g : Life.G} (h : (rs.foldl Life.gStep g).ok = true)
+    (ho : (rs.foldl Life.gStep g).orphan = false) : g.ok = true ∧ g.orphan = false := by
   induction rs generalizing g with
-  | nil => exact h
-  | cons r rs ih => exact (gStep_ok (ih h)).1
+  | nil => exact ⟨h, ho⟩
+  | cons r rs ih => exact (gStep_ok (ih h ho).1 (ih h ho).2).1
 
 theorem sim_fold (rs : List Rec) (g : Life.G) (s : St) (h : Sim s g.s)
-    (hok : (rs.foldl Life.gStep g).ok = true) : Sim (rs.foldl step s) (rs.foldl Life.step g.s) := by
+    (hok : (rs.foldl Life.gStep g).ok = true) (ho : (rs.foldl Life.gStep g).orphan = false) :
+    Sim (rs.foldl step s) (rs.foldl Life.step g.s) := by
   induction rs generalizing g s with
   | nil => exact h
   | cons r rs ih =>
-    rw [List.foldl_cons] at hok ⊢
+    rw [List.foldl_cons] at hok ho ⊢
     rw [List.foldl_cons, ← gStep_s]
-    exact ih (Life.gStep g r) (step s r) (sim_step h r (gStep_ok (foldl_gStep_ok hok)).2) hok
+    have hg := foldl_gStep_ok hok ho
+    exact ih (Life.gStep g r) (step s r) (sim_step h r (gStep_ok hg.1 hg.2).2) hok ho
 
 theorem sim_init (cfg : Config) (hr : cfg.reuse = false) : Sim (St.init cfg) { ref := cfg.ref, cur := cfg.ref } := by
   refine ⟨⟨rfl, rfl, hr, rfl, rfl, fun _ => rfl, fun _ => rfl⟩, ⟨?_, ?_, ?_⟩⟩
@@ -926,8 +944,10 @@ theorem sim_init (cfg : Config) (hr : cfg.reuse = false) : Sim (St.init cfg) { r
   · intro i ti hti; simp at hti
 
 theorem sim_run (cfg : Config) (rs : List Rec) (hr : cfg.reuse = false)
-    (hg : Life.grammarOk cfg.ref rs = true) : Sim (run cfg rs) (Life.run cfg.ref rs) :=
+    (hg : Life.grammarOk cfg.ref rs = true) (ho : Life.orphanFree cfg.ref rs = true) :
+    Sim (run cfg rs) (Life.run cfg.ref rs) :=
   sim_fold rs { s := { ref := cfg.ref, cur := cfg.ref } } (St.init cfg) (sim_init cfg hr) hg
+    (by simpa [Life.orphanFree] using ho)
 
 /-! ### The output abstraction -/
 
